@@ -48,6 +48,7 @@ static void body(mvprog::PT& p) {
     for (char op : p.ops) {
         if (op == 'y') { thread_yield(); continue; }
         if (op == 'p') { int npad = pmc_choose(3, PMC_PROG, 0, "pad yields"); for (int kk = 0; kk < npad; kk++) thread_yield(); continue; }   // every arrival order on one vCPU
+        if (op == 'q') { if (pmc_choose(2, PMC_PROG, 0, "pad yield")) thread_yield(); continue; }
         if (op == 'W' || op == 'T' || op == 'P') {
             LOCK();
             int r = 0; int e = 0; uint64_t t0 = mv_now();
@@ -131,7 +132,10 @@ void pmc_run(const char* config) {
     char prog[128]; char extra[16] = "";
     st.use_mutex = config[0] == 'm';
     if (sscanf(config + 2, "%127[^:]:%15s", prog, extra) < 1) pmc_broken("bad config");
-    st.prog.parse(prog);
+    pmc_window(1);     // generated programs are explorer choices
+    // (one op per thread: the oracle's bookkeeping is per single-shot thread; no 'h' with the spinlock: holding a spinlock across a yield on
+    //  one vCPU live-locks by construction)
+    if (st.prog.parse_or_generate(prog, st.use_mutex ? std::vector<std::string>{"W", "T", "N", "A", "h", "n", "a", "u"} : std::vector<std::string>{"W", "T", "N", "A", "n", "a", "u"})) st.log = st.prog.generated + " ";
     st.prog.early_join = strstr(extra, "early") != nullptr;
     pmc_window(0);
     mv_init(); mvp::use_fast_stacks(true);
@@ -166,6 +170,11 @@ static const PmcConfig CFG[] = {
     {"m:pW,pP,pnpa", 2, {0,0}, {0,0}, {0,0}, {0,0}, ""},
     {"m:W|u",        2, {1,2}, {0,0}, {0,0}, {0,0}, "notification without the lock"},
     {"s:W,W|a",      2, {1,2}, {0,0}, {0,0}, {0,0}, ""},
+    {"m:gen3x1",     3, {0,0}, {0,0}, {0,0}, {0,0}, "generated: every 3-thread program with one op each from {W,T,N,A,h,n,a,u}, every arrival order"},
+    {"s:gen3x1",     3, {0,0}, {0,0}, {0,0}, {0,0}, ""},
+    {"m:gen4x1",     2, {0,0}, {0,0}, {0,0}, {0,0}, ""},
+    {"s:gen4x1",     2, {0,0}, {0,0}, {0,0}, {0,0}, ""},
+    {"m:gen3x1:tdev",2, {0,0}, {1,1}, {0,0}, {0,0}, ""},
     {"m:W|N:tso",    3, {1,2}, {0,0}, {1,1}, {2,3}, "x86-TSO store buffers"},
     {"s:W|N:tso",    3, {1,2}, {0,0}, {1,1}, {2,3}, ""},
     {"m:W,W|A:tso",  2, {1,1}, {0,0}, {1,1}, {2,2}, ""},
